@@ -319,7 +319,7 @@ def run(tier):
     cases = corpus.generate(rep, specs)
     rep.exhaustive = True
     if tier == "quick":
-        keep = {"elementwise": 16, "update_at": 6, "get_at": 8, "id": 6, "preserve": 4, "argfind": 4, "reduce": 2}
+        keep = {"elementwise": 16, "update_at": 16, "get_at": 8, "id": 6, "preserve": 4, "argfind": 4, "reduce": 2}
         cases = [c for i, c in enumerate(cases) if i % keep.get(c["fam"], 1) == 0]
     items = [{"case": c, "op": OPS[c["fam"]][i % len(OPS[c["fam"]])], "seed": i} for i, c in enumerate(cases)]
     items += [{"special": "adapters"}, {"special": "synthetic"}]
